@@ -420,7 +420,7 @@ def cvc5_decide(smt2, cap_s):
         tm = cvc5.TermManager() if hasattr(cvc5, 'TermManager') else None
         sl = cvc5.Solver(tm) if tm else cvc5.Solver()
         sl.setOption('fp-exp', 'true')
-        sl.setOption('tlimit', str(int(cap_s * 1000)))
+        sl.setOption('tlimit-per', str(int(cap_s * 1000)))  # ('tlimit' ends the whole PROCESS when it expires)
         ip = cvc5.InputParser(sl)
         ip.setStringInput(cvc5.InputLanguage.SMT_LIB_2_6, smt2, 'l2')
         sm = ip.getSymbolManager()
